@@ -208,6 +208,9 @@ class Conv:
                 self.static_out = "origin displacement does not fit the signed intermediate rep"
         if not isf(self.calc) and (self.n > tmax(self.calc) or self.d > tmax(self.calc)):
             self.static_out = "conversion factor not representable in the intermediate rep"
+        if not isf(self.calc) and (self.kd * self.n) % math.gcd(self.kx * self.n, self.d) != 0:
+            # (x*KX + KD)*N/D is never an integer: nothing is demanded of any value of this instance
+            self.static_out = "true result is never an integer"
         self.ops = {}
 
     def desc(self):
